@@ -19,6 +19,7 @@
  */
 #include "async_pipe.h"
 #include <tbox/base/defines.h>
+#include <tbox/base/verif_point.h>
 
 #include <cstring>
 #include <cassert>
@@ -212,7 +213,9 @@ void AsyncPipe::Impl::cleanup()
     if (!inited_)
         return;
 
+    TBOX_VERIF_POINT("AsyncPipe.cleanup_before_stop");
     stop_signal_ = true;
+    TBOX_VERIF_POINT("AsyncPipe.cleanup_before_notify");
     full_buffers_cv_.notify_all();
     backend_thread_.join();
     stop_signal_ = false;
@@ -315,6 +318,7 @@ void AsyncPipe::Impl::threadFunc()
 
         //! 如果是超时或是收到停止信号，则先将 curr_buff_ 移到 full_buffers_
         if (is_wake_for_timeup || is_wake_for_quit) {
+            TBOX_VERIF_POINT("AsyncPipe.before_try_lock");
             if (curr_buffer_mutex_.try_lock()) {
                 if (curr_buffer_ != nullptr) {
                     //! Q: 这里为什么不锁 full_buffers_mutex_ ?
@@ -342,6 +346,7 @@ void AsyncPipe::Impl::threadFunc()
             }
 
             if (buff != nullptr) {
+                TBOX_VERIF_POINT("AsyncPipe.before_sink_cb");
                 //! 进行处理
                 if (cb_)
                     cb_(buff->data(), buff->size());
